@@ -342,6 +342,7 @@ func (r *PropResult) Report() int {
 	for _, ge := range r.GenErrors {
 		fmt.Printf("ERROR: %s\n", ge)
 	}
+	os.RemoveAll(filepath.Join(VerifDir, "replays", prop))
 	for _, o := range violations {
 		path := writeReplay(r, o)
 		suffix := ""
